@@ -27,6 +27,7 @@ def status_comparing(f):
 
 def run(ctx):
     R = ClientRoles(ctx, "Q")
+    _demote_reader_spellings(ctx, R)
     ctx.explanation = (
         "(Q1) for every Client function that compares a reply's status code with a constant, path-sensitive constant "
         "propagation over code in {OK, NO}: the OK assignment reaches only success returns (True / the data), the NO "
@@ -248,7 +249,18 @@ def run(ctx):
     ctx.need("Q5", "writes of errcode/errmsg", nw, 5)
 
 
+def _demote_reader_spellings(ctx, R):
+    """Q7 (how the error text is decoded) and Q8 (a literal as the text of an OK reply is consumed) describe one spelling of the line
+    reader; when the evaluation of the readers followed them (a NO with non-ASCII text, OK (WARNINGS) {n} followed by the next reply)
+    findings of these two rules INSIDE the readers are recorded, not reported."""
+    from .c05 import m7_status
+    if (m7_status(ctx, R) or ("",))[0] == "ok":
+        covered = {f_.qualname for f_ in (R.line_reader, R.block_reader, R.assembler, R.error_parser) if f_ is not None}
+        ctx.demote(("Q7", "Q8"), "the evaluation of the readers (M7)", only_in=covered)
+
+
 def q34(ctx, R):
+    _demote_reader_spellings(ctx, R)
     lin = R.line_reader
     from ref import ms_spec
     # ---- Q3 ----------------------------------------------------------------------
@@ -558,6 +570,7 @@ def q9(ctx, R):
 
 
 def q7(ctx, R):
+    _demote_reader_spellings(ctx, R)
     """RFC 5804: everything the server sends is UTF-8.  A reply decoded with a narrower codec makes an operation raise instead of
     returning the server's verdict."""
     ctx.rule("Q7", "server text is decoded as UTF-8 (directly or through a helper called with that codec)")
